@@ -376,9 +376,10 @@ def run_property(prop, tier, jobs=None, only=None):
         "violations": len(violations),
         "assumptions": uniq("assumptions") + ["TRUSTED: " + t for t in uniq("trusted")],
         "coverage": {
-            "evaluations": max(queries, 0),
+            "evaluations": queries + sum(len(results[o.name]["discharged"]) for o in obs),
             "distinct_nontrivial": len(nontrivial),
-            "rule": "evaluations = solver queries issued (feasibility + obligation + identity queries); "
+            "rule": "evaluations = solver queries issued (feasibility + obligation + identity queries) + harness assertions evaluated "
+                    "(each discharged entry: a solver verdict turned into a report line, or a ground / call-trace comparison); "
                     "distinct_nontrivial = distinct (obligation, query, path) triples that were discharged with a "
                     "non-trivially-true goal on a feasible path, counted by the harness",
             "samples": samples,
